@@ -116,6 +116,16 @@ output_dtype   : {self.output_dtype}
            :class:`Function` as its input.
         """
 
+        if index < -len(self.input_shapes):
+            raise IndexError(
+                f"Parameter index {index} out of range for a function with "
+                f"{len(self.input_shapes)} parameters."
+            )
+        if index < 0:
+            # a negative index counts from the last parameter (it is used to split the
+            # tuple of the remaining parameters, so it has to be normalized)
+            index += len(self.input_shapes)
+
         def pfunc(var_arg):
             args = fix_args[0:index] + (var_arg,) + fix_args[index:]
             return self._eval(*args)
